@@ -225,7 +225,8 @@ file keeps whatever index padding it came with.)
 `_partial`: (1) a LOD in use without meshes is excluded (`update_headers` gives it a 16-byte index
 section that `Spec.encodeMdl` cannot express); (2) that the edit calls return (no panic of the
 overflow-checked arithmetic in `update_headers`, which depends on the magnitudes of the supplied
-sub-mesh offsets at intermediate states) is a hypothesis, not a conclusion; (3) the classes of the
+sub-mesh offsets at intermediate states) is a hypothesis here — it is a conclusion in
+`c07_edit_then_parse_total_partial` under explicit size conditions; (3) the classes of the
 recorded findings `c07.writer-unsupported-layout` / `c06.blendweights-byte4` are excluded through
 `Canonical` (`writable` pairs only), exactly as in `c07_write_parse`.  The statement of the former
 comment (`c07_edit_then_parse`) with hypotheses on `a`, `a'` only is **false** for
@@ -258,6 +259,33 @@ theorem c07_edit_then_parse_partial (a : AbstractModel) (h : WF a = true) (hcan 
     edit_then_parse a h hcan v0 hv0 es hne hes a' ha' ces hces h' hlen' hcan' hne' v hv mE hE
   exact ⟨buf, m1, h1, h2, h5, h3, h4, h6⟩
 
+/-- **… and the edit calls do return** when every intermediate state is small enough: `editsFit`
+(`Proofs/MdlReturns.lean`, decidable, stated on the abstract states only) asks of the state after
+every edit `Fits`: table sizes within `u16`, ≤ 3 streams per mesh, unused LODs without meshes,
+every mesh of a LOD in use has a sub-mesh and `2·(first sub-mesh offset + index count) < 2³² − 16`
+(no overflow of the checked `start + count`, `· 2`, no wrap of the padding), and header + runtime
+block + stack + Σ (Σ count × Σ strides + padded index extent) `< 2³²`; and of the state before an
+`add_shape_mesh` that the `u16` shape-mesh count can be incremented.  Then nothing is assumed about
+the outcome of the calls: they return some `mE`, and the conclusion of
+`c07_edit_then_parse_partial` holds for it.  `_partial` for the same reasons (1), (3) as there. -/
+theorem c07_edit_then_parse_total_partial (a : AbstractModel) (h : WF a = true)
+    (hcan : Canonical a = true) (v0 : View) (hv0 : view a = some v0)
+    (es : List AEdit) (hne : es ≠ []) (hes : editsOk2 a es = true) (hfit : editsFit a es = true)
+    (a' : AbstractModel) (ha' : applyEdits a es = some a')
+    (ces : List Edit) (hces : cedits a es = some ces)
+    (h' : WF a' = true) (hlen' : (encodeMdl (relayout a')).length < 4294967296)
+    (hcan' : Canonical a' = true) (hne' : usedNonempty a' = true)
+    (v : View) (hv : view a' = some v) :
+    ∃ m0 mE buf m1, fromExisting (encodeMdl a) = .ok m0 ∧ ces.foldlM Mdl.applyEdit m0 = .ok mE ∧
+      writeToBuffer mE = .ok buf ∧ fromExisting buf = .ok m1 ∧ m1.view = v ∧
+      m1.fileHeader = mE.fileHeader ∧ m1.modelData = mE.modelData ∧
+      headerFlags m1.fileHeader buf.length m1.lods = HeaderFlags.allOk := by
+  obtain ⟨mE, hE⟩ := edits_return_initial a h hcan v0 hv0 es hes hfit a' ha' ces hces
+  obtain ⟨buf, m1, h1, h2, h3, h4, h5, h6⟩ :=
+    edit_then_parse a h hcan v0 hv0 es hne hes a' ha' ces hces h' hlen' hcan' hne' v hv mE hE
+  exact ⟨parsedOf a v0, mE, buf, m1, parse_encode a h (canonical_noWeightsByte4 a hcan) v0 hv0, hE,
+    h1, h2, h5, h3, h4, h6⟩
+
 /-- `canonicalSample` with one (empty) shape, so that `add_shape_mesh` has something to extend -/
 def shapeSample : AbstractModel :=
   { canonicalSample with shapes := [⟨[0x73], ⟨0, 0, 0⟩, ⟨0, 0, 0⟩⟩] }
@@ -274,13 +302,14 @@ def sampleEdits : List AEdit :=
    .replace 0 0 3 [⟨16, r0 ++ (r0 ++ r0)⟩, ⟨10, r1 ++ (r1 ++ r1)⟩] [0, 1, 2, 2, 1, 0] [(0, 6)],
    .addShape 0 0 0 0 [1] [⟨16, r0⟩, ⟨10, r1⟩]]
 
-/-- non-vacuity of `c07_edit_then_parse_partial`: every hypothesis holds on `shapeSample` with
+/-- non-vacuity of `c07_edit_then_parse_partial` / `c07_edit_then_parse_total_partial`: every hypothesis holds on `shapeSample` with
 `sampleEdits`, the concrete calls return, and the final view reports the added shape -/
 example :
     (match view shapeSample, applyEdits shapeSample sampleEdits, cedits shapeSample sampleEdits with
      | some v0, some a', some ces =>
        WF shapeSample && Canonical shapeSample &&
-       editsOk2 shapeSample sampleEdits && WF a' && Canonical a' && usedNonempty a' &&
+       editsOk2 shapeSample sampleEdits && editsFit shapeSample sampleEdits && WF a' && Canonical a' &&
+         usedNonempty a' &&
          decide ((encodeMdl (relayout a')).length < 4294967296) &&
          (match view a' with
           | some v => v.lods.all (fun ps => ps.all (fun p => p.shapes.length == 1 && p.vertices.length == 4))
